@@ -223,6 +223,23 @@ impl<T> Channel<T> {
             assert_eq!(head, me);
         }
 
+        // The sender's clock first absorbs what this send causally depends on: the waiting receiver of a
+        // rendezvous channel (the sender knows that it will perform the matching receive), or the
+        // receive that freed this slot of a bounded channel. Only then is the message stamped, so that
+        // the clock it carries (the one the receiver inherits) is the sender's clock as it is after this
+        // send, and the send is ordered before the matching receive.
+        if self.is_rendezvous() {
+            if let Some(&tid) = state.waiting_receivers.first() {
+                ExecutionState::with(|s| {
+                    let recv_clock = s.get_clock(tid).clone();
+                    s.get_clock_mut(me).update(&recv_clock);
+                });
+            }
+        } else if let Some(receiver_clock) = &mut state.receiver_clock {
+            let recv_clock = receiver_clock.remove(0);
+            ExecutionState::with(|s| s.get_clock_mut(me).update(&recv_clock));
+        }
+
         ExecutionState::with(|s| {
             let clock = s.increment_clock();
             state.messages.push(TimestampedValue::new(message, clock.clone()));
@@ -230,29 +247,13 @@ impl<T> Channel<T> {
 
         // The sender has just added a message to the channel, so unblock the first waiting receiver if any
         if let Some(&tid) = state.waiting_receivers.first() {
-            ExecutionState::with(|s| {
-                s.get_mut(tid).unblock();
-
-                // When a sender successfully sends on a rendezvous channel, it knows that the receiver will perform
-                // the matching receive, so we need to update the sender's clock with the receiver's.
-                if self.is_rendezvous() {
-                    let recv_clock = s.get_clock(tid).clone();
-                    s.update_clock(&recv_clock);
-                }
-            });
+            ExecutionState::with(|s| s.get_mut(tid).unblock());
         }
         // Check and unblock the next the waiting sender, if eligible
         if let Some(&tid) = state.waiting_senders.first() {
             let bound = self.bound.expect("can't have waiting senders on an unbounded channel");
             if state.messages.len() < bound {
                 ExecutionState::with(|s| s.get_mut(tid).unblock());
-            }
-        }
-
-        if !self.is_rendezvous() {
-            if let Some(receiver_clock) = &mut state.receiver_clock {
-                let recv_clock = receiver_clock.remove(0);
-                ExecutionState::with(|s| s.update_clock(&recv_clock));
             }
         }
 
